@@ -56,6 +56,9 @@ type Case struct {
 	// ReadPollUs > 0: the application polls - every ReadDataPoints call gets its own context that ends after that many
 	// microseconds (1 = practically expired on entry); a call that returns the context error is simply repeated
 	ReadPollUs int `json:"read_poll_us,omitempty"`
+	// CloseCtxMs > 0: deadline of the context passed to Close (default: 8 s). Used with an ack flush interval far longer than it:
+	// the final acks still go out before the close request, because Close triggers them and does not wait for the next tick
+	CloseCtxMs int `json:"close_ctx_ms,omitempty"`
 }
 
 func DataID(i int) *message.DataID {
@@ -402,14 +405,18 @@ func Run(c Case, w *sim.World) (*History, error) {
 		}
 		time.Sleep(200 * time.Microsecond)
 	}
-	if c.CloseMode == "settled" {
+	if c.CloseMode == "settled" && c.AckFlushMs <= 50 {
 		time.Sleep(time.Duration(c.AckFlushMs)*time.Millisecond*2 + time.Millisecond)
 	}
 	rmu.Lock()
 	h.CloseCalledAfterReads = len(h.Read)
 	rmu.Unlock()
 	ok, _ = sim.Call(perCall+time.Second, func() {
-		ctx, cancel := sim.Ctx(perCall)
+		d := perCall
+		if c.CloseCtxMs > 0 {
+			d = time.Duration(c.CloseCtxMs) * time.Millisecond
+		}
+		ctx, cancel := sim.Ctx(d)
 		defer cancel()
 		h.CloseErr = down.Close(ctx)
 	})
